@@ -135,11 +135,12 @@ theorem splitColon_prefix {p : Str} (loc : Str) (h : ':' ∉ p) :
 structure NsInv (m : List (Str × Str)) : Prop where
   nodup : (keysOf m).Nodup
   names : ∀ p ∈ keysOf m, nameOk p = true ∧ p ≠ xmlnsStr
+  uris : ∀ x ∈ m, uriOk x.2 = true
 
 /-- the reader's map holds the same bindings as the writer's (in another order) -/
 def SameMap (m' m : List (Str × Str)) : Prop := ∀ x, x ∈ m' ↔ x ∈ m
 
-theorem NsInv.nil : NsInv [] := ⟨by simp [keysOf], by simp [keysOf]⟩
+theorem NsInv.nil : NsInv [] := ⟨by simp [keysOf], by simp [keysOf], by simp⟩
 
 theorem NsInv.no_empty_key {m : List (Str × Str)} (h : NsInv m) : lookupNs [] m = none := by
   apply lookupNs_none
@@ -301,7 +302,7 @@ theorem nsdeclsOk_facts {pns nsd : List (Str × Str)} (h : nsdeclsOk pns nsd = t
 theorem NsInv.scope {pns nsd : List (Str × Str)} (hinv : NsInv pns) (h : nsdeclsOk pns nsd = true) :
     scope pns nsd = nsd ++ pns ∧ NsInv (nsd ++ pns) := by
   obtain ⟨hd, hnd⟩ := nsdeclsOk_facts h
-  refine ⟨scope_disjoint (fun o ho => (hd o ho).2.2.2), ?_, ?_⟩
+  refine ⟨scope_disjoint (fun o ho => (hd o ho).2.2.2), ?_, ?_, ?_⟩
   · rw [keysOf_append]
     refine List.nodup_append.mpr ⟨hnd, hinv.nodup, ?_⟩
     intro a ha b hb hab
@@ -313,6 +314,10 @@ theorem NsInv.scope {pns nsd : List (Str × Str)} (hinv : NsInv pns) (h : nsdecl
     · obtain ⟨u, hu⟩ := mem_keysOf.mp hp
       exact ⟨(hd _ hu).1, (hd _ hu).2.1⟩
     · exact hinv.names p hp
+  · intro x hx
+    rcases List.mem_append.mp hx with hx | hx
+    · exact (hd x hx).2.2.1
+    · exact hinv.uris x hx
 
 /-- the reader's map of the same element: the declarations it finds are `canonNs`, and its map
 holds the same bindings -/
@@ -345,7 +350,7 @@ theorem reader_scope {pns pns' nsd : List (Str × Str)} (hinv : NsInv pns) (hinv
   have hsame : SameMap (nsd' ++ pns') (nsd ++ pns) := by
     intro x
     simp only [List.mem_append, hmem x, hs x]
-  refine ⟨scope_disjoint hdisj, ⟨?_, ?_⟩, hsame⟩
+  refine ⟨scope_disjoint hdisj, ⟨?_, ?_, fun x hx => hinvW.uris x ((hsame x).mp hx)⟩, hsame⟩
   · rw [keysOf_append]
     refine List.nodup_append.mpr ⟨canonNs_keys_nodup hinvW.nodup, hinv'.nodup, ?_⟩
     intro a ha b hb hab
